@@ -303,6 +303,9 @@ fn scaling_documents() -> Vec<(String, Case)> {
             }
             body.push_str(&format!("<xs:element name=\"E{levels}\" type=\"xs:string\"/>"));
             out.push((format!("ref-ladder:levels={levels}:width={width}"), Case::single("t.xsd", &format!("{open}{body}{close}"))));
+            // the same ladder with UNPREFIXED references and no default namespace declared (not valid
+            // against the target namespace, but read all the same)
+            out.push((format!("ref-ladder-unprefixed:levels={levels}:width={width}"), Case::single("t.xsd", &format!("{open}{}{close}", body.replace("ref=\"t:", "ref=\"")))));
         }
     }
     for levels in [8usize, 16, 24, 32, 64] {
